@@ -428,6 +428,26 @@ func searchIntKey(p *thrift.BinaryProtocol, id int) (tt thrift.Type, start int, 
 	return
 }
 
+// pathMismatch tells why the ith path item of type pt cannot be applied to a node of type tt,
+// or returns "" if it fits
+func pathMismatch(i int, pt PathType, tt thrift.Type) string {
+	switch pt {
+	case PathFieldId, PathFieldName:
+		if tt != thrift.STRUCT {
+			return fmt.Sprintf("%dth path expects STRUCT node, got %s", i, tt)
+		}
+	case PathIndex:
+		if tt != thrift.LIST && tt != thrift.SET {
+			return fmt.Sprintf("%dth path expects LIST or SET node, got %s", i, tt)
+		}
+	case PathStrKey, PathIntKey, PathBinKey:
+		if tt != thrift.MAP {
+			return fmt.Sprintf("%dth path expects MAP node, got %s", i, tt)
+		}
+	}
+	return ""
+}
+
 // GetByPath searches longitudinally and return a sub node at the given path from the node.
 //
 // The path is a list of PathFieldId, PathIndex, PathStrKey, PathBinKey, PathIntKey,
@@ -450,13 +470,17 @@ func (self Node) GetByPath(pathes ...Path) Node {
 	var err error
 
 	for i, path := range pathes {
+		// the path item must fit the type of the node it is applied to
+		if msg := pathMismatch(i, path.t, tt); msg != "" {
+			return errNode(meta.ErrUnsupportedType, msg, nil)
+		}
 		switch path.t {
 		case PathFieldId:
 			tt, start, err = searchFieldId(&p, path.id())
-			isList = self.t == thrift.LIST
 		case PathFieldName:
 			return errNode(meta.ErrUnsupportedType, "", nil)
 		case PathIndex:
+			isList = tt == thrift.LIST
 			tt, start, err = searchIndex(&p, path.int(), isList)
 		case PathStrKey:
 			tt, start, err = searchStrKey(&p, path.str())
